@@ -171,22 +171,30 @@ Proof. exact supported_table. Qed.
 Print Assumptions supported_metrics_table.
 
 (* ---------------------------------------------------------------- guards *)
-(* 11. in any sequence of operations starting from a fresh model, predict / save
-       succeed iff a tune() that returned, or a load(), came earlier; and is_fitted
-       says exactly that *)
+(* 11. THE PROPERTY CLAUSE: in any sequence of operations starting from a fresh model,
+       predict / save raise unless a tune() that returned, or a load(), came earlier *)
 Definition makes_fitted (o : gop) : bool := match o with OTune true | OLoad => true | _ => false end.
 Definition requires_fitted (o : gop) : bool := match o with OPredict | OSave => true | _ => false end.
 
-Theorem predict_and_save_guarded : forall ops k o res fitted_after,
+Theorem predict_and_save_before_tuning_raise : forall ops k o res fitted_after,
+  nth_error ops k = Some o -> nth_error (grun false ops) k = Some (res, fitted_after) ->
+  requires_fitted o = true ->
+  (forall j p, j < k -> nth_error ops j = Some p -> makes_fitted p = false) ->
+  res = RErr.
+Proof. exact guard_raises_before_fit. Qed.
+Print Assumptions predict_and_save_before_tuning_raise.
+
+(* 11b. conversely the GUARD lets predict / save through once fitted (ROk = "the guard
+        does not raise"; what the call does afterwards -- _predict's asserts,
+        os.makedirs / save_model -- is outside the model, see Model/Gbdt.v), and
+        is_fitted says exactly "a tune() that returned, or a load(), has happened" *)
+Theorem guard_passes_once_fitted : forall ops k o res fitted_after,
   nth_error ops k = Some o -> nth_error (grun false ops) k = Some (res, fitted_after) ->
   (requires_fitted o = true ->
-   (res = ROk <-> exists j p, j < k /\ nth_error ops j = Some p /\ makes_fitted p = true)) /\
+   (exists j p, j < k /\ nth_error ops j = Some p /\ makes_fitted p = true) -> res = ROk) /\
   (fitted_after = true <-> exists j p, j <= k /\ nth_error ops j = Some p /\ makes_fitted p = true).
-Proof.
-  intros ops k o res f' Hk Hr. destruct (grun_guard false ops k o res f' Hk Hr) as [A B].
-  split; [intros N; rewrite (A N) | rewrite B]; split; try (intros [H|H]; [discriminate | exact H]); auto.
-Qed.
-Print Assumptions predict_and_save_guarded.
+Proof. exact guard_passes_after_fit. Qed.
+Print Assumptions guard_passes_once_fitted.
 
 (* ---------------------------------------------------------------- metrics *)
 Open Scope Q_scope.
@@ -257,7 +265,8 @@ Example tf_example_catboost :
         Some [q 0 1; q 1 1], [0; 1]).
 Proof. vm_compute. reflexivity. Qed.
 
-(* guards: predict on a fresh model raises; a failed tune does not help; load does *)
+(* guards: predict on a fresh model raises; a failed tune does not help; load does
+   (ROk = the guard passes) *)
 Example guard_example :
   map fst (grun false [OPredict; OSave; OTune false; OPredict; OLoad; OPredict; OSave; OTune true]) =
   [RErr; RErr; RErr; RErr; ROk; ROk; ROk; ROk].
